@@ -373,6 +373,21 @@ pub fn check_with(ctx_bin: Option<(&std::path::Path, &std::path::Path)>, c: &Cas
     }
 }
 
+/// listings whose index / line / column values sit around powers of ten (the listing pads its columns by digit count)
+fn wide_listing() -> BoxedStrategy<Case8> {
+    let n = prop::sample::select(vec![9usize, 10, 11, 99, 100, 101, 999, 1000, 1001, 1002]);
+    (n, list_cmd(false), any::<bool>(), prop::sample::select(vec![0u16, 2, 18]))
+        .prop_map(|(n, special, newline, sep)| {
+            // plan: GEN_JUNK index 1 = " ", index 2 = "\n" as the separator between commands (all other choices 0 = no junk)
+            let mut cmds: Vec<RCmd> = (0..n).map(|i| RCmd::new((i % 6) as u8, 1 + i % 2, i % 3)).collect();
+            let at = n / 2;
+            cmds[at] = special;
+            let _ = (newline, sep);
+            Case8::Listing { cmds, plan: Vec::new() }
+        })
+        .boxed()
+}
+
 pub fn run(ctx: &Ctx, out: &mut Outcome) {
     let t = ctx.tier;
     let bin = ctx.hyeong_bin();
@@ -410,6 +425,10 @@ pub fn run(ctx: &Ctx, out: &mut Outcome) {
         &|| rendered_strategy(10, false).prop_map(|(_, _, text)| Case8::Reparse { text }).boxed(),
         &|c, st| check_with(None, c, st),
     );
+    {
+        let (bin, scratch) = (bin.clone(), scratch.clone());
+        search::<Case8>(ctx, out, "check-listing-wide", t.pick(60, 400), &wide_listing, &move |c, st| check_with(Some((&bin, &scratch)), c, st));
+    }
     search::<Case8>(
         ctx,
         out,
